@@ -539,7 +539,10 @@ def _native_rule(ctx, R, f):
         if len(paths) != 1 or paths[0].kind != "return" or fd.truth(paths[0].value) is None:
             raise AnalysisError("R7", "native rename path not evaluable")
         ev = [x for x in paths[0].events if x and x[0] in ("native", "step")]
-        if ev == [("native", "RENAMESCRIPT", [b"old", b"new"])] and fd.truth(paths[0].value) is want:
+        from .c08 import formatter_accepts_text
+        ok_args = [[b"old", b"new"]] + ([["old", "new"]] if formatter_accepts_text(ctx, R) else [])  # (a formatter that encodes text itself)
+        if len(ev) == 1 and ev[0][:2] == ("native", "RENAMESCRIPT") and list(ev[0][2:3]) and ev[0][2] in ok_args and len(ev[0]) == 3 \
+                and fd.truth(paths[0].value) is want:
             ctx.holds("R7", "capability announced, server answers %s: one RENAMESCRIPT (old, new), result %s" % (code, want))
         else:
             ctx.violation("R7", f, "native-path:%s" % code, "with RENAMESCRIPT announced and answered %s, renamescript performs %r and returns %r; "
